@@ -39,7 +39,7 @@ CHECKS = {
  "C02": dict(
     category="translation_validation", technique="pairwise execution of real compiler outputs on the Coq IC10 machine (vm_compute) with kernel-checked comparison/monotonicity lemmas; option vectors enumerated (pairwise-covering / all 256)",
     text="Every program (generated + the repository's 69 programs) is compiled under a baseline and under option vectors (quick: 4 per program from a pairwise-covering set plus the 32 behaviour vectors; thorough: all 256 on 20 programs) and each variant is executed against the baseline on the machine model under 2 oracles; one vector per program is also delivered through '# pytrapic:' lines and must give the same code. Kernel-checked: verdict 0 implies event-wise agreement, traces are monotone in fuel, the C07 guard is conservative, the option record has exactly the 8 regenerated fields. Bounded, sampled validation - not a proof of the compiler.",
-    note="Trusted: Coq kernel; IC10/Machine.v; ic10.py reader. Known finding C07 is factored out by the guarded run; programs addressing the chip's own stack are not compared under the push/pop convention (same memory); one open known finding (tail call after an inner call).",
+    note="Trusted: Coq kernel; IC10/Machine.v; ic10.py reader. Known finding C07 is factored out by the guarded run; programs addressing the chip's own stack are not compared under the push/pop convention (same memory); the former finding 'tail call after an inner call' was repaired (7e7d929).",
     design="4 C02"),
  "C07": dict(
     category="proof", technique="Coq proof about the machine (sequential flow = next line; j/jr/hcf never fall through; end of program halts silently) + closure check of every emitted layout evaluated in Coq + execution past the end of main",
@@ -64,7 +64,7 @@ CHECKS = {
  "C06": dict(
     category="proof", technique="Coq: shadow-call-stack monitor proved not to disturb the machine; model of add_ra_instructions with shape theorem for all function bodies (fixed-slot) + correspondence in both conventions; monitored execution of generated call graphs",
     text="Kernel-checked: the monitored run is the machine's run for every program/oracle/fuel/state; for EVERY function body of the emitted shape that makes a call, add_ra_instructions (fixed-slot) yields one push ra on entry and one pop ra after the end label, so every exit (early returns jump to the end label) restores ra; functions without calls or returns are untouched. The model of add_ra_instructions (both conventions) is compared with the real method on 1000+ synthetic instruction lists. Generated programs with functions (arities 0-3, early returns, calls in expressions) are compiled under five option sets; every executed return is checked by the monitor (returns to the call being served, stack-pointer delta 0 / -args+result) and effect traces are compared with the source.",
-    note="Trusted: Coq kernel; Machine.v/Monitor.v; RaInsert.v abstraction of instructions; generator's arities; hook. Monitored runs bounded and sampled. Push/pop placement has no shape theorem (correspondence only). Open known findings: consequences of C07 fall-through, tail call after an inner call.",
+    note="Trusted: Coq kernel; Machine.v/Monitor.v; RaInsert.v abstraction of instructions; generator's arities; hook. Monitored runs bounded and sampled. Push/pop placement has no shape theorem (correspondence only). Open known findings: consequences of C07 fall-through only (the tail-call and constant-list-loop defects were repaired: 7e7d929, c46ae10).",
     design="4 C06"),
  "C14": dict(
     category="proof", technique="Coq: verified outcome analysis of control skeletons (soundness for every skeleton, environment and execution) evaluated on the regenerated skeletons of process_input and main + scripted-stdin runs of the real daemon under five interpreter environments",
@@ -94,7 +94,7 @@ CHECKS = {
  "C13": dict(
     category="translation_validation", technique="one source tree rendered as a split (main + library module) and as a merged single-file program; both compiled and executed on the Coq machine against the Coq source semantics and against each other; kernel-checked comparison lemmas",
     text="Each generated program has 1-3 library functions, 1-2 library globals (written through `global`), a never-called library function and an `if __name__ == \"__main__\"` block, imported with or without alias, with main-level names that collide with library-level names. The split rendering and the merged rendering (module-name prefix) are compiled under 2-5 option sets; each output is executed against the source semantics (same tree for both) and the two outputs against each other; the never-called function and the __main__ block must contribute no instruction. Kernel-checked: verdict 0 of both comparisons implies event-wise agreement; traces are monotone in fuel. No theorem about the compiler's handling of modules: bounded, sampled validation.",
-    note="Trusted: Coq kernel; Src/Sem.v, Machine.v; the harness's two printers. Open known findings: consequences of the fall-through and tail-call defects.",
+    note="Trusted: Coq kernel; Src/Sem.v, Machine.v; the harness's two printers. Open known finding: consequences of the fall-through defect (the tail-call defects were repaired: 7e7d929).",
     design="4 C13"),
 }
 
